@@ -91,6 +91,11 @@ CHECKS = {
         text="Small-scope exhaustive exploration of the supported program space; the verdict per program is rustc's (no diagnostics attributable to the derive) plus structural invariants of the generated impl headers.",
         note="Trusted: the support table (docs transcription); the carrier type meeting every trait requirement; rustc. Field types are the carrier H<X, N> (and T for Error); other field-type forms are C04's subject.",
         design_ref="DESIGN.md §3 C01", engine="inproc+compile"),
+    "C15": dict(
+        technique="bounded exhaustive enumeration: every (derive, documented template) of C01's support table on the non-generic and a fully generic signature (plus a third in thorough), placed in two hostile scopes - #[no_implicit_prelude] with only `use ::derive_more;`, and a module shadowing 96 prelude type/variant/trait names, derive_more helper names, std macros and core/std/alloc - and type-checked with the real proc-macro under #![deny(warnings)]",
+        text="Configuration-space exploration: the same programs that compile in a neutral scope (C01) must compile in each hostile scope; user-written tokens are given explicit imports so any unresolved or mis-resolved name is the expansion's.",
+        note="Trusted: rustc name resolution. Behavioural identity follows from the expansion text being scope-independent; only compilation is observed.",
+        design_ref="DESIGN.md §3 C15", engine="compile"),
 }
 
 PENDING = ["C01", "C02", "C03", "C04", "C05", "C06", "C07", "C08", "C09", "C10", "C11", "C13", "C14", "C15", "C16",
